@@ -614,12 +614,13 @@ func (aof *AppendableFile) SwitchToReadOnlyMode() error {
 		return err
 	}
 
-	if aof.retryableSync {
-		// syncing is required to free the write buffer with retryable sync
-		err := aof.sync()
-		if err != nil {
-			return err
-		}
+	// syncing is required to free the write buffer with retryable sync. It is
+	// also needed without it: a file switched to read-only mode is never
+	// written again and a later Sync of a multi-file appendable only covers
+	// its active chunk, so this is the last chance to make its tail durable
+	err = aof.sync()
+	if err != nil {
+		return err
 	}
 
 	aof.writeBuffer = nil
